@@ -49,10 +49,12 @@ ASSUMPTIONS = [
 RULE = ("generated shell tasks: 1-5 input fields (File, File|None, list[File], int; copy_mode any/copy/link; argstr "
         "flag or none) and 0-2 outargs with path templates, files spread over 1-4 host directories (names with spaces, "
         "UTF-8, nested, shared between fields), roots '/mnt/pydra', with trailing slashes, '', nested; xargs lists; both "
-        "runtimes. Non-trivial = at least two FileSet paths AND (two fields share a directory OR a directory name contains "
+        "runtimes; 35% of the tasks have an input directly in the cache root, in its parent or in a sub-directory of it "
+        "(copied inputs land in the job directory). Non-trivial = at least two FileSet paths AND (two fields share a directory OR a directory name contains "
         "a space OR a list-of-file field is present); distinct by (fields, root, runtime)")
 
 DIRS = ["d1", "d2", "d 3", "sub/deep", "café", "d1/in", "x.y"]
+SPECIAL = ["@cache_root", "@cache_root", "@cache_parent", "@cache_root/upstream-abc"]
 ROOTS = ["/mnt/pydra", "/mnt/pydra", "/mnt/pydra/", "/r", "/r//", "", "/a/b.c", "/mnt/é"]
 XARGS = [[], [], ["--rm"], ["--rm", "-e", "A=1"], "--net none", ["-u", "1000:1000"]]
 MARK = re.compile(r"/@@([A-Za-z0-9_]+)@(\d+)@@")
@@ -62,6 +64,12 @@ def gen_task_spec(rng):
     """A JSON-able description of one task: fields, values, environment."""
     ndirs = rng.choice([1, 2, 2, 3, 4])
     dirs = rng.sample(DIRS, ndirs)
+    # special locations (round 3): directly in the cache root, in its parent, in a sub-directory of the cache root
+    # (an upstream job directory); copied inputs already end up in the job directory itself
+    if rng.random() < 0.35:
+        dirs[rng.randrange(len(dirs))] = rng.choice(SPECIAL)
+    if rng.random() < 0.15:
+        dirs.append(rng.choice(SPECIAL))
     nin = rng.randrange(1, 6)
     fields = []
     for i in range(nin):
@@ -106,8 +114,18 @@ def build_and_run(spec, work):
     data = Path(work) / "data"
     inputs, kwargs = {}, {}
 
+    cache_root = Path(work) / "cache"
+    cache_root.mkdir(exist_ok=True)
+
     def mk(rel):
-        p = data / rel[0] / rel[1]
+        d = rel[0]
+        if d.startswith("@cache_root"):
+            base = cache_root / d[len("@cache_root"):].lstrip("/")
+        elif d == "@cache_parent":
+            base = Path(work)
+        else:
+            base = data / d
+        p = base / rel[1]
         p.parent.mkdir(parents=True, exist_ok=True)
         p.write_text("x")
         return p
@@ -129,8 +147,6 @@ def build_and_run(spec, work):
     outputs = {o["name"]: shell.outarg(type=File, argstr=o["argstr"], path_template=o["template"]) for o in spec["outs"]}
     Task = shell.define("cmd27", inputs=inputs, outputs=outputs, name="T27")
     task = Task(**kwargs)
-    cache_root = Path(work) / "cache"
-    cache_root.mkdir(exist_ok=True)
     job = Job(task=task, submitter=Submitter(cache_root=cache_root), name="c27")
     ins = job.inputs
     envmod = docker if spec["runtime"] == "docker" else singularity
@@ -262,7 +278,7 @@ def run(ctx):
     rng = ctx.rng
     n = ctx.budget(150, 1500)
     out = Outcome(rule=RULE)
-    dist = {"docker": 0, "singularity": 0, "list_fields": 0, "dirs_with_space": 0, "shared_dir_rw_and_ro": 0,
+    dist = {"input_directly_in_cache_root": 0, "input_in_parent_of_cache_root": 0, "docker": 0, "singularity": 0, "list_fields": 0, "dirs_with_space": 0, "shared_dir_rw_and_ro": 0,
             "root_trailing_slash": 0, "root_empty": 0, "raised": 0, "outside_domain": 0, "paths": 0}
     work = tempfile.mkdtemp(prefix="c27-", dir="/tmp")
     specs = [c for c in ctx.corpus()]
@@ -290,6 +306,8 @@ def run(ctx):
             dist["dirs_with_space"] += any(" " in os.path.dirname(p) for p in allp)
             dist["root_trailing_slash"] += obs["root"].endswith("/")
             dist["root_empty"] += obs["root"] == ""
+            dist["input_directly_in_cache_root"] += any(os.path.dirname(p) == obs["cache_root"] for p in allp)
+            dist["input_in_parent_of_cache_root"] += any(os.path.dirname(p) == os.path.dirname(obs["cache_root"]) for p in allp)
             byd = {}
             for f in obs["fields"]:
                 ps = [f["value"][1]] if f["value"][0] == "one" else f["value"][1] if f["value"][0] == "many" else []
